@@ -65,6 +65,10 @@ def gen_script(rng, ncols, nsess, bufs, allow_bad=False):
             for _ in range(rng.range(0, 3)):
                 used += 1
                 puts.append((f"k{used}", bytes([rng.below(256)]) * rng.range(0, 4)))
+            if puts and fault == "none" and not retry.get("") and rng.chance(1, 8):
+                # the empty string is a legal key (and the empty value a legal value): a record like any other
+                retry[""] = True
+                puts.insert(rng.range(0, len(puts) - 1), ("", bytes([rng.below(256)]) * rng.range(0, 2)))
         cut = rng.range(0, max(len(puts), 1))
         if torn:
             # the write fails after some bytes of the record are in the file: a torn tail is left behind.  The record is
